@@ -65,6 +65,12 @@ def check(ctx, args):
                                           "history": evs[:i + 1] if i is not None else evs})
                 ctx.fail(cls, "%s: event %s %s is not enabled (a dependency is not done or the job is not idle)" % (os.path.basename(d), kind, jid),
                          {"replay_dir": os.path.dirname(rp), "event": [kind, jid]})
+    # histories with an automatic retry: one job dies once of a signal (a
+    # transient failure), mrp resets and re-runs it; the order inside the fork
+    # (every chunk finished before the join starts, a preflight job finished
+    # before anything else starts) must hold across the reset as well
+    nretry = retry_histories(ctx, progs, okc)
+    ntr += nretry
     ctx.oblige("trace acceptance: every observed history replayed through Sched.valid_trace in the kernel (%d histories)" % ntr, okc and ntr > 0)
     ctx.samples = []
     if ntr:
@@ -73,6 +79,80 @@ def check(ctx, args):
         "evaluations": ntr, "distinct_nontrivial": ntr,
         "rule": "one history per (generated program, schedule); non-trivial: at least one job ran; distinct programs by construction, distinct schedules by seed; total events %d" % nev,
         "traces_validated_against_impl": ntr, "events": nev, "programs": nprog,
-        "schedules": scheds, "shape_distribution": stats,
+        "schedules": scheds, "shape_distribution": stats, "retry_histories": nretry,
     })
     return ctx.finish("proof")
+
+
+def retry_histories(ctx, progs, okc):
+    import random
+    rnd = random.Random(ctx.seed + 77)
+    quick = ctx.tier == "quick"
+    res = pipelib.run_programs(ctx, progs, "ps0")
+    scen = []
+    for name, info in sorted(res.items()):
+        d = os.path.join(progs, name)
+        if info["exit"] != 0 or info["jobs"] < 2:
+            continue
+        jobs = pipelib.clean_jobs(d)
+        splits = pipelib.splits_of(d)
+        # chunk jobs of splitting stages and preflight jobs first
+        pref = [j for j in jobs if (j[2] == "main" and j[1] in splits) or j[1] == "PFCHECK"]
+        # ... and among them jobs of stages without output parameters (nothing
+        # but the order keeps a skipped job from going unnoticed)
+        import json
+        spec = json.load(open(os.path.join(d, "spec.json")))["stages"]
+        strong = [j for j in pref if not spec.get(j[1], {}).get("outs")]
+        if strong and rnd.random() < 0.9:
+            pick = rnd.choice(strong)
+        else:
+            pick = rnd.choice(pref) if pref and rnd.random() < 0.8 else rnd.choice(jobs)
+        scen.append({"dir": d, "prog": name, "site": pick[0], "psid": "r%d" % len(scen), "strong": pick in strong})
+    rnd.shuffle(scen)
+    scen.sort(key=lambda s: not s["strong"])
+    nstrong = sum(1 for s in scen if s["strong"])
+    scen = scen[:min(len(scen), max(16 if quick else 150, min(nstrong, 24 if quick else 200)))]
+
+    def run(s):
+        s["res"] = pipelib.scenario(ctx, ("c06", "faultrun"), [s["dir"], ctx.mart, s["psid"], s["site"], "signal", "2", "once"])
+        return s
+    pipelib.parallel(run, scen, par=8)
+    cases = []
+    for s in scen:
+        incs = s["res"].get("incarnations", [])
+        if not incs:
+            continue
+        psids = ["%s.inc%d" % (s["psid"], i) for i in range(len(incs))]
+        jobs, evs = schedcases.trace_of(s["dir"], psids, pipelib.splits_of(s["dir"]))
+        evs2, failed = [], set()
+        for k, j in evs:
+            if k == "EFail":
+                failed.add(j)
+            if k == "EReset":
+                failed.discard(j)
+            if k == "EStart" and j in failed:
+                evs2.append(("EReset", j))
+                failed.discard(j)
+            evs2.append((k, j))
+        if jobs:
+            cases.append((s, jobs, evs2))
+    if not (okc and cases):
+        return 0
+    verdicts, errors = pipelib.trace_check(ctx, [(s["dir"], j, e) for s, j, e in cases], "retry")
+    ctx.oblige("retry histories evaluate in the kernel", not errors, "; ".join(errors[:2]))
+    n = 0
+    for (s, jobs, evs), v in zip(cases, verdicts):
+        if v is None:
+            continue
+        n += 1
+        if not v["valid"]:
+            i = v["first_bad"]
+            kind, jid = evs[i] if i is not None and i < len(evs) else ("?", "?")
+            rp = pipelib.save_replay(ctx, s["dir"], s["prog"] + "_" + s["psid"],
+                                     {"program": s["prog"], "transient_failure_at": s["site"], "autoretry": 2,
+                                      "first_rejected_event": [kind, jid], "index": i,
+                                      "history": evs[:i + 1] if i is not None else evs})
+            ctx.fail("start_before_dependency_finished_after_retry" if kind == "EStart" else "retry_history_not_accepted_" + kind,
+                     "%s: after the transient failure of %s, event %s %s is not enabled" % (s["prog"], s["site"], kind, jid),
+                     {"replay_dir": os.path.dirname(rp), "event": [kind, jid]})
+    return n
